@@ -192,8 +192,63 @@ func c13Doc(explode *bool, bodySchema gen.S, secured bool) gen.S {
 		item["parameters"] = pathParams
 	}
 	d := baseDoc(gen.S{"/d": item})
-	d["components"] = gen.S{"securitySchemes": gen.S{"A": gen.S{"type": "apiKey", "in": "header", "name": "X-A"}, "B": gen.S{"type": "http", "scheme": "bearer"}}}
+	d["components"] = gen.S{"securitySchemes": gen.S{"A": gen.S{"type": "apiKey", "in": "header", "name": "X-A"}, "B": gen.S{"type": "http", "scheme": "bearer"}},
+		"schemas": c13Components()}
 	return d
+}
+
+// c13Components: component schemas the body schemas refer to (one schema object with a default, used at several places).
+func c13Components() gen.S {
+	return gen.S{"Retries": gen.S{"type": "integer", "default": 3.0}, "Label": gen.S{"type": "string", "default": "L"}}
+}
+
+// c13Deref inlines "#/components/schemas/X" references (for the reference merge, which works on plain schema text).
+func c13Deref(v any) any {
+	switch t := v.(type) {
+	case map[string]any:
+		if r, ok := t["$ref"].(string); ok {
+			return c13Deref(gen.CloneValue(c13Components()[strings.TrimPrefix(r, "#/components/schemas/")]))
+		}
+		out := gen.S{}
+		for k, x := range t {
+			out[k] = c13Deref(x)
+		}
+		return out
+	case []any:
+		out := make([]any, len(t))
+		for i, x := range t {
+			out[i] = c13Deref(x)
+		}
+		return out
+	}
+	return v
+}
+
+// c13BranchOnlySchema: the only defaults live inside the alternatives of oneOf / anyOf (and on one sibling the client may send).
+func c13BranchOnlySchema() gen.S {
+	card := gen.S{"type": "object", "required": gen.Arr("kind"), "properties": gen.S{"kind": gen.S{"type": "string", "enum": gen.Arr("card")}, "currency": gen.S{"type": "string", "default": "EUR"}}}
+	transfer := gen.S{"type": "object", "required": gen.Arr("kind"), "properties": gen.S{"kind": gen.S{"type": "string", "enum": gen.Arr("transfer")}, "reference": gen.S{"type": "string", "default": "none"},
+		"hops": gen.S{"type": "array", "items": gen.S{"type": "object", "properties": gen.S{"via": gen.S{"type": "string", "default": "direct"}}}}}}
+	return gen.S{"type": "object", "properties": gen.S{
+		"note":    gen.S{"type": "string"},
+		"payment": gen.S{"oneOf": gen.Arr(card, transfer)},
+		"backup":  gen.S{"anyOf": gen.Arr(card, transfer)},
+		"zprio":   gen.S{"type": "integer", "default": 1.0},
+	}}
+}
+
+// c13SharedDefaultSchema: one component schema with a default, used for an outer property and again inside later siblings.
+func c13SharedDefaultSchema() gen.S {
+	r := gen.S{"$ref": "#/components/schemas/Retries"}
+	l := gen.S{"$ref": "#/components/schemas/Label"}
+	return gen.S{"type": "object", "properties": gen.S{
+		"name":    gen.S{"type": "string"},
+		"retries": r,
+		"label":   l,
+		"steps":   gen.S{"type": "object", "properties": gen.S{"name": gen.S{"type": "string"}, "retries": r, "sub": gen.S{"type": "object", "properties": gen.S{"label": l, "retries": r}}}},
+		"tasks":   gen.S{"type": "array", "items": gen.S{"type": "object", "properties": gen.S{"retries": r, "label": l}}},
+		"zlast":   gen.S{"type": "object", "properties": gen.S{"label": l}},
+	}}
 }
 
 // refMerge: the reference default merge (request reading). It returns the merged value.
@@ -332,7 +387,10 @@ func runC13(c *core.Ctx) {
 	}
 	idx := 0
 	for _, ex := range []*bool{nil, bp(true), bp(false)} {
-		for si, schema := range []gen.S{c13BodySchema(), c13PlainSchema()} {
+		for si, schema := range []gen.S{c13BodySchema(), c13PlainSchema(), c13BranchOnlySchema(), c13SharedDefaultSchema()} {
+			if si >= 2 && ex != nil {
+				continue // the body-centred schemas run once
+			}
 			for _, secured := range []bool{false, true} {
 				for mask := 0; mask < 64; mask++ {
 					if c.Mine(idx) {
@@ -405,7 +463,37 @@ func c13Group(c *core.Ctx, explode *bool, si int, schema gen.S, secured bool, ma
 	if secured {
 		auths = []string{"reads-body-accepts", "reads-body-rejects", "reads-body-A-rejects-B-accepts"}
 	}
-	for _, b := range c13Bodies() {
+	bodies := c13Bodies()
+	jb := func(name string, v any) c13body {
+		b, _ := json.Marshal(v)
+		return c13body{name, "application/json", b}
+	}
+	switch si {
+	case 2:
+		bodies = []c13body{
+			jb("card, nothing else absent", gen.S{"note": "x", "payment": gen.S{"kind": "card"}, "zprio": 2.0}),
+			jb("transfer, nothing else absent", gen.S{"payment": gen.S{"kind": "transfer"}, "zprio": 2.0}),
+			jb("transfer with hops", gen.S{"payment": gen.S{"kind": "transfer", "hops": gen.Arr(gen.S{}, gen.S{"via": "x"})}, "zprio": 2.0}),
+			jb("anyOf card, sibling sent", gen.S{"backup": gen.S{"kind": "card"}, "zprio": 5.0}),
+			jb("anyOf transfer, sibling absent", gen.S{"backup": gen.S{"kind": "transfer"}}),
+			jb("both compositions", gen.S{"payment": gen.S{"kind": "card", "currency": "USD"}, "backup": gen.S{"kind": "transfer"}, "zprio": 3.0}),
+			jb("no alternative matches", gen.S{"payment": gen.S{"kind": "cash"}, "zprio": 3.0}),
+			jb("nothing to set", gen.S{"payment": gen.S{"kind": "card", "currency": "USD"}, "zprio": 3.0}),
+			bodies[len(bodies)-1],
+		}
+	case 3:
+		bodies = []c13body{
+			jb("outer absent, nested absent in a later sibling", gen.S{"steps": gen.S{"name": "build"}}),
+			jb("outer sent, nested absent", gen.S{"retries": 9.0, "label": "mine", "steps": gen.S{"name": "build"}}),
+			jb("deeper", gen.S{"steps": gen.S{"sub": gen.S{}}, "zlast": gen.S{}}),
+			jb("items", gen.S{"tasks": gen.Arr(gen.S{}, gen.S{"retries": 1.0}, gen.S{"label": "x"})}),
+			jb("everything absent", gen.S{}),
+			jb("everything sent", gen.S{"retries": 1.0, "label": "a", "steps": gen.S{"retries": 2.0, "sub": gen.S{"label": "b", "retries": 3.0}}, "tasks": gen.Arr(gen.S{"retries": 4.0, "label": "c"}), "zlast": gen.S{"label": "d"}}),
+			bodies[len(bodies)-1],
+		}
+	}
+	schema = c13Deref(schema).(gen.S)
+	for _, b := range bodies {
 		for _, os := range optsets {
 			for _, auth := range auths {
 				for _, withGet := range []bool{true, false} {
